@@ -988,7 +988,7 @@ theorem process_dinv_false (hOn : OnMono On) (st : SeqSt S) (N : SubP S) (r x : 
       · simp only [hxe, Bool.false_eq_true, if_false]
         have hxe' : x.isExact = false := by simpa using hxe
         have hC := hcut hxe'
-        obtain ⟨e1, e2, _, _, e5⟩ := enqueue_false_spec ((st.updateBest r).updateBest x) N.ub x.cutset
+        obtain ⟨e1, e2, _, _, e5⟩ := enqueue_false_spec ((st.updateBest r).updateBest x) x.cutset
         rw [e1, e2]
         have hfr : ((st.updateBest r).updateBest x).fringe = st.fringe := f2.trans f1
         refine ⟨hlb2, hsol2, fun hgt => ?_⟩
@@ -1000,8 +1000,7 @@ theorem process_dinv_false (hOn : OnMono On) (st : SeqSt S) (N : SubP S) (r x : 
             have := updateBest_lb_ge_val (st.updateBest r) x w hw
             omega
           obtain ⟨c0, hc0, hOn0, hub0⟩ := hC hP (by omega) hw
-          exact ⟨{ c0 with ub := min c.ub c0.ub }, (e5 _).mpr (Or.inr ⟨c0, hc0, rfl, by omega⟩), hOn.ub c0 _ hOn0,
-            by simp only; omega⟩
+          exact ⟨c0, (e5 _).mpr (Or.inr ⟨c0, hc0, rfl, by omega⟩), hOn0, hub0⟩
         · exact ⟨c, (e5 c).mpr (Or.inl (by rw [hfr]; exact e)), hP, hU⟩
 
 /-- the invariant passes to any coalescing of the multiset of open sub-problems -/
